@@ -171,6 +171,11 @@ def teval(t, leaf=None, sv=None):
         return ev(t[1])[ev(t[2])]
     if k == 'call' and t[1] == 'builtins.len':
         return len(ev(t[3][0][1]))
+    if k == 'call' and t[1] == 'builtins.range' and 1 <= len(t[3]) <= 3:
+        vals = [ev(v) for _, v in t[3]]
+        if all(isinstance(v, int) and not isinstance(v, bool) for v in vals):
+            return range(*vals)
+        raise NoValue(text(t, 80))
     if k == 'call' and t[1] == 'builtins.sum' and len(t[3]) == 1 and t[3][0][1][0] in ('tuple', 'list') \
             and not any(isinstance(x, tuple) and x and x[0] in ('star', 'when', 'each', 'acc') for x in t[3][0][1][1]):
         return sum(ev(x) for x in t[3][0][1][1])
